@@ -62,6 +62,12 @@ func runAggVerify(raw json.RawMessage, seed int64) (res Result) {
 			w.msgs[name] = MsgDef{Tag: m1.Tag + name, Data: m1.Data}
 		}
 	}
+	// the hasher class of the run: the KMAC expander, or (one run in five) 128-byte hashers whose outputs for different messages
+	// share their whole first half (the first field element of hash_to_field) and differ only in the second
+	hcls := "kmac"
+	if w.Rng.Intn(5) == 0 {
+		hcls = "prefix128"
+	}
 	n := len(c.Inp)
 	pks := make([]crypto.PublicKey, n)
 	msgs := make([][]byte, n)
@@ -72,8 +78,8 @@ func runAggVerify(raw json.RawMessage, seed int64) (res Result) {
 		pk, s := w.keyObj(t.K, int(seed)+i)
 		pks[i] = pk
 		msgs[i] = w.Msg(t.M).Data
-		hs[i] = w.Hasher("kmac", t.M)
-		last = w.HashPoint("kmac", t.M).Mul(s)
+		hs[i] = w.Hasher(hcls, t.M)
+		last = w.HashPoint(hcls, t.M).Mul(s)
 		sum = sum.Add(last)
 	}
 	var sig []byte
